@@ -343,6 +343,41 @@ theorem load_prefix_bound (d : Option Str) (u : Str) (M : NsMap)
   let h := Proofs.MapInv.loadPrefix_ok tblNsEnv (Proofs.MapInv.envOK_sound _ tables_ok) d u M hM hu
   ⟨h.2.2, h.2.1⟩
 
+/-- **qname_value_resolves**: the lexical form `QNameConverter.serialize` gives a QName value with a
+declarable namespace (an `xsi:type` value, …) is `prefix:local` with `prefix` bound to the QName's
+namespace in the map that results — the map whose new entries the element declares (`Ext`: nothing
+the ancestors declared is rebound) —, or the bare `local` when that namespace is the default
+namespace of that map.  (That the document's in-scope bindings are this map is invariant `ScopeEq`
+of the L2 proof; a reader that resolves QName *values* is not part of `infoset`, so
+`serialize_says_metadata` still excludes `xsi:type` — gap 7.) -/
+theorem qname_value_resolves (d : Option Str) (t u l : Str) (M : NsMap)
+    (hM : Proofs.MapInv.MapOK tblNsEnv d M) (ht : clark t = some (some u, l)) (hu : uriOK u = true) :
+    ∃ s M', serializeQName tblNsEnv t M = .ok (s, M') ∧ Proofs.MapInv.Ext M M'
+      ∧ ((∃ p, p ≠ [] ∧ s = p ++ ':' :: l ∧ dget M' (some p) = some u)
+         ∨ (s = l ∧ (dget M' none = some u ∨ dget M' (some []) = some u))) := by
+  have hs := Proofs.MapInv.clark_splitQName t _ ht
+  obtain ⟨hext, _, hget⟩ := Proofs.MapInv.loadPrefix_ok tblNsEnv (Proofs.MapInv.envOK_sound _ tables_ok) d u M hM hu
+  unfold serializeQName
+  rw [hs]
+  simp only []
+  generalize hlp : loadPrefix tblNsEnv u M = r at hext hget
+  obtain ⟨po, M'⟩ := r
+  simp only [] at hext hget
+  cases po with
+  | none => exact ⟨l, M', rfl, hext, Or.inr ⟨rfl, Or.inl hget⟩⟩
+  | some p =>
+    by_cases hp : p.isEmpty = true
+    · have : p = [] := by simpa using hp
+      subst this
+      exact ⟨l, M', by simp, hext, Or.inr ⟨rfl, Or.inr hget⟩⟩
+    · refine ⟨p ++ ':' :: l, M', by simp [hp], hext, Or.inl ⟨p, ?_, rfl, hget⟩⟩
+      intro h; subst h; simp at hp
+
+/-- the hypotheses hold e.g. for an `xsi:type` value in `urn:b` under a user map that binds `p` to it -/
+example : Proofs.MapInv.MapOK tblNsEnv (userDefault [(some ['p'], urnB)]) (serializerNsMap [(some ['p'], urnB)])
+    ∧ clark (inB ['T']) = some (some urnB, ['T']) ∧ uriOK urnB = true :=
+  ⟨Proofs.UserMap.userMapOK_MapOK tblNsEnv _ (by decide +kernel), by decide +kernel, by decide +kernel⟩
+
 /-- the cleaned user map satisfies the invariant whenever it passes the decidable check -/
 theorem user_map_invariant (m : List (Pfx × Str)) (hm : userMapOK tblNsEnv m = true) :
     Proofs.MapInv.MapOK tblNsEnv (userDefault m) (serializerNsMap m) :=
